@@ -66,6 +66,10 @@ func lnRoutes() []map[string]any {
 		// EVERY such connection, not only the first one the handler sees
 		{"match": []map[string]any{vhm(4, "Y", "subfall")}, "handle": []map[string]any{{"handler": "verif_h", "k": "mark", "l": 1, "r": 8},
 			{"handler": "subroute", "routes": []map[string]any{{"match": []map[string]any{vhm(12, "N", "subfall")}, "handle": []map[string]any{{"handler": "verif_h", "k": "term"}}}}}}},
+		// "thrfall": a matched route whose handler is the real throttle handler (generous limits), then fall-through: the
+		// wrapped listener's consumer reads the stream THROUGH the throttled connection, after layer4 has let go of it
+		{"match": []map[string]any{vhm(4, "Y", "thrfall")}, "handle": []map[string]any{{"handler": "verif_h", "k": "mark", "l": 1, "r": 9},
+			{"handler": "throttle", "read_bytes_per_second": 4000000, "read_burst_size": 65536}}},
 		// a non-terminal handler eats a prefix, then the connection falls through
 		{"match": []map[string]any{vhm(4, "Y", "eatfall")}, "handle": []map[string]any{{"handler": "verif_h", "k": "mark", "l": 1, "r": 3}, {"handler": "verif_h", "k": "eat", "n": eatN}}},
 		// never decided: matching fails when the client's stream ends
@@ -120,7 +124,7 @@ func runListener(sc lnScen, idx int, seed int64) (*lnTrace, error) {
 	for i, kind := range sc.Mix {
 		id := fmt.Sprintf("k%d", i+1)
 		slen := sc.Slen
-		if (kind == "term" || kind == "eatfall" || kind == "tlsfall" || kind == "hold" || kind == "subfall") && slen < 16 {
+		if (kind == "term" || kind == "eatfall" || kind == "tlsfall" || kind == "hold" || kind == "subfall" || kind == "thrfall") && slen < 16 {
 			slen = 16
 		}
 		if kind == "wrapfall" && slen < 300 {
@@ -200,7 +204,7 @@ func runListener(sc lnScen, idx int, seed int64) (*lnTrace, error) {
 		if k == "tlsfall" {
 			k, isTLS = "fall", true
 		}
-		if k == "wrapfall" || k == "subfall" {
+		if k == "wrapfall" || k == "subfall" || k == "thrfall" {
 			k = "fall"
 		}
 		if k == "fall" && ci.slen < 8 {
